@@ -55,6 +55,9 @@ func metricAllowed(g int64, shortcut bool) func(w Win, ts int64) bool {
 			lo = floorTo(lo, 15e9)
 		}
 		hi := floorTo(w.E, g) + g
+		if shortcut {
+			hi = floorTo(hi+15e9-1, 15e9) // the 15 s storage bucket that holds the end of the last range bucket
+		}
 		return ts >= lo && ts < hi
 	}
 }
